@@ -1,8 +1,83 @@
 import PymtlVerif.Driver.Sexp
-/-! Handler `nets` (stub: not built yet). -/
-namespace PV.Driver.Nets
-open PV
+import PymtlVerif.Model.Nets
+/-! Handler `nets`: executable face of `Model/Nets.lean` for the C08/C09 correspondence checks.
 
-def handle (_args : List Sexp) : Option String := none
+Request:  `nets elab (objs (sid kind host (f…) none|(lo hi))…) (par none|p …) (conns (a b at)…)
+                     (blks (host ff ((o op)…) (r…))…)`
+Reply (one line of S-expressions):
+  `(stage n) (errs E…) (loop b) (ffloop b|none) (allnets (m…)…) (headed (w m…)…) (headless (m…)…) (adj (a n…)…)`
+-/
+namespace PV.Driver.Nets
+open PV PV.Nets
+
+def kind? : Sexp → Option Kind
+  | .atom "in" => some .inp | .atom "out" => some .outp | .atom "wire" => some .wire
+  | .atom "const" => some .const | _ => none
+
+def op? : Sexp → Option Op
+  | .atom "assign" => some .assign | .atom "at" => some .at | .atom "ff" => some .ff | _ => none
+
+def slice? : Sexp → Option (Option (Nat × Nat))
+  | .atom "none" => some none
+  | .list [lo, hi] => do some (some (← lo.nat?, ← hi.nat?))
+  | _ => none
+
+def obj? : Sexp → Option Obj
+  | .list [sid, k, h, fs, sl] => do
+      some ⟨← sid.nat?, ← kind? k, ← h.nat?, ← fs.nats?, ← slice? sl⟩
+  | _ => none
+
+def par? : Sexp → Option (Option Nat)
+  | .atom "none" => some none
+  | x => do some (some (← x.nat?))
+
+def conn? : Sexp → Option (Nat × Nat × Nat)
+  | .list [a, b, c] => do some (← a.nat?, ← b.nat?, ← c.nat?)
+  | _ => none
+
+def write? : Sexp → Option (Nat × Op)
+  | .list [o, op] => do some (← o.nat?, ← op? op)
+  | _ => none
+
+def blk? : Sexp → Option Blk
+  | .list [h, ff, .list ws, rs] => do
+      some ⟨← h.nat?, ← ff.bool?, ← ws.mapM write?, ← rs.nats?⟩
+  | _ => none
+
+def tagged (tag : String) : Sexp → Option (List Sexp)
+  | .list (.atom t :: xs) => if t == tag then some xs else none
+  | _ => none
+
+def design? (o p c b : Sexp) : Option Design := do
+  let os ← (← tagged "objs" o).mapM obj?
+  let ps ← (← tagged "par" p).mapM par?
+  let cs ← (← tagged "conns" c).mapM conn?
+  let bs ← (← tagged "blks" b).mapM blk?
+  some ⟨os, ps, cs, bs⟩
+
+def showNats (xs : List Nat) : String := " ".intercalate (xs.map toString)
+
+def showErr (e : Err) : String := e.pyClass
+
+def showOutcome (D : Design) : String :=
+  let o := elaborate D
+  let E := D.edges
+  let S := simple E
+  let ff := match ffLoop E with
+    | none => "none" | some b => b2s b
+  let allnets := " ".intercalate ((nets E).map (fun N => "(" ++ showNats N ++ ")"))
+  let headed := " ".intercalate (o.headed.map (fun wn => "(" ++ showNats (wn.1 :: wn.2) ++ ")"))
+  let headless := " ".intercalate (o.headless.map (fun N => "(" ++ showNats N ++ ")"))
+  let adjs := " ".intercalate ((nodesOf S).map (fun a => "(" ++ showNats (a :: sortDedup (adj S a)) ++ ")"))
+  s!"(stage {o.stage}) (errs {" ".intercalate (o.errs.map showErr)}) (loop {b2s (hasLoop E)}) (ffloop {ff}) " ++
+  s!"(allnets {allnets}) (headed {headed}) (headless {headless}) (adj {adjs})"
+
+def handle (args : List Sexp) : Option String :=
+  match args with
+  | [.atom "elab", o, p, c, b] => do
+      let D ← design? o p c b
+      if D.wf then some (showOutcome D) else none
+  | [.atom "related", a, b] => do some (b2s (related (← obj? a) (← obj? b)))
+  | _ => none
 
 end PV.Driver.Nets
